@@ -1153,9 +1153,9 @@ def extract_unit(spec_path, repo, out_path, meta_path=None, canary=None):
             body = re.sub(r'//[^\n]*', '', body)
             n = len(re.findall(item['pattern'], body))
             if n != item.get('count', 1):
-                raise LostAnchor('uses %s: fn %s in %s matches /%s/ %d time(s), expected %d -- the call site no longer '
-                                 'goes through the function under contract' % (item['name'], item['within_fn'], rel,
-                                                                               item['pattern'], n, item.get('count', 1)))
+                raise LostAnchor('uses %s: fn %s in %s matches /%s/ %d time(s), expected %d -- %s' % (
+                    item['name'], item['within_fn'], rel, item['pattern'], n, item.get('count', 1),
+                    item.get('what', 'the call site no longer goes through the function under contract')))
             log.append({'rule': 'USES', 'before': '%s in fn %s' % (item['pattern'], item['within_fn']), 'after': 'call site pinned',
                         'file': rel, 'line': src.line_of(src.tok(fo)[3])})
         elif kind == 'dispatch_table':
